@@ -163,3 +163,9 @@ Fixpoint prefix5 (l1 l2 : list seen5) : bool :=
   | x :: r1, y :: r2 => seen_eqb x y && prefix5 r1 r2
   | _ :: _, [] => false
   end.
+
+(* global size filter -Z gz: correspondence from [init_z gz] and the specification with that filter in force *)
+Definition agree4z (p : N * case4) : bool := let '(z, (a, b, c0, d)) := p in agree_case_z z a b c0 d.
+Definition ok_sel2z (tgl : list (N * strig)) (sizes : list (N * N)) (fm hc : bool) (gd thr gz : N) (f : list call)
+                    (orecs : list seen5) : bool :=
+  list_eqb seen_eqb orecs (map ideal (flat_map (sel2 (assoc notrig2 tgl) (assoc 0 sizes) hc (x02z fm gd thr gz) 0) f)).
